@@ -219,11 +219,11 @@ def mk_inputs(draw):
     rows = {}
     for n, comps in dss.items():
         if n == "DS_T":
-            fam = draw(st.sampled_from([["2020", "2021", "2023", "9999"], ["2020Q1", "2020Q4", "2021Q2"], ["2020M1", "2020M12", "2021M2"], ["2020W1", "2020W53", "2021W52"], ["2020D1", "2020D366", "2021D365"], ["2020S1", "2020S2", "2022S1"],
+            fam = draw(st.sampled_from([["2020", "2021", "2023", "2030"], ["2020Q1", "2020Q4", "2021Q2"], ["2020M1", "2020M12", "2021M2"], ["2020W1", "2020W53", "2021W52"], ["2020D1", "2020D366", "2021D365"], ["2020S1", "2020S2", "2022S1"],
                                         ["2020", "2020Q1", "2020M12", "2020D366"]]))
             rows[n] = rows_for(comps, [[1, 2], fam], 6)
         elif n == "DS_D":
-            rows[n] = rows_for(comps, [[1, 2], ["2020-02-29", "2020-12-31", "2021-01-03", "9999-12-31", "1800-01-01", "2021-03-31"]], 6)
+            rows[n] = rows_for(comps, [[1, 2], ["2020-02-29", "2020-12-31", "2021-01-03", "2024-12-31", "2019-01-01", "2021-03-31"]], 6)
         else:
             rows[n] = rows_for(comps, idv, 6)
     return dss, rows
@@ -249,7 +249,7 @@ def build_case(draw):
         name, tpl = draw(st.sampled_from(DATASET_LEVEL))
         used.append("ds:" + name)
         subs = {}
-        if "{i}" in tpl: subs["i"] = draw(st.sampled_from([0, 1, -1, 5, -13, 400, 10000, 100000]))
+        if "{i}" in tpl: subs["i"] = draw(st.sampled_from([0, 1, -1, 5, -13, 400, 10000]))
         if "{i0}" in tpl: subs["i0"] = draw(st.sampled_from([0, 1, 2, 1000, 9223372036854775807]))
         if "{dur}" in tpl: subs["dur"] = draw(st.sampled_from(["A", "S", "Q", "M", "W", "D"]))
         if "{agg}" in tpl: subs["agg"] = draw(st.sampled_from(AGGS))
